@@ -18,7 +18,7 @@ use crate::proto::{Ctx, attrs};
 pub fn meta() -> Meta {
     Meta {
         level: "fault_enumeration",
-        rule: "for each kind (bdd, bcdd, zbdd; mtbdd with the terminal store as swept resource) and each scripted operation on 4-variable operands (5 fixed operand sets, thorough: 32; on some of them a collection is requested before the first variable / before the first node exists; var creation / operand construction, and, xor, ite, not, exists, apply_exists, substitute, restrict, pick_cube_dd, pick_cube_dd_set, zbdd union/change/subset1/not/ite, mtbdd add/mul, DDDMP import in ASCII and binary mode, set_var_order, zbdd add_vars): a fresh manager for EVERY inner-node capacity c = 0 .. B+m+2 (B = nodes of ballast + operands, m = nodes the operation allocates on an ample manager), 1 worker and (for and/ite/exists) 2 workers with split depth 2. Outcome must be Ok with the model's result or Err(OutOfMemory); after Err: full audit incl. exact reference counts with the harness's live handles, all earlier handles keep their tables, gc leaves exactly the reachable nodes; then the ballast is dropped, gc, and the same operation must succeed with the model's result. Panic, abort and hang are violations. Non-trivial: runs in which the operation itself (not the operand construction) failed.",
+        rule: "for each kind (bdd, bcdd, zbdd; mtbdd with the terminal store as swept resource) and each scripted operation on 4-variable operands (5 fixed operand sets, thorough: 32; on some of them a collection is requested before the first variable / before the first node exists; var creation / operand construction, and, xor, ite, not, exists, apply_exists, substitute, restrict, pick_cube_dd, pick_cube_dd_set, zbdd union/change/subset1/not/ite, mtbdd add/mul, DDDMP import in ASCII and binary mode, set_var_order, zbdd add_vars): a fresh manager for EVERY inner-node capacity c = 0 .. B+m+2 (B = nodes of ballast + operands, m = nodes the operation allocates on an ample manager), 1 worker and (for and/ite/exists) 2 workers with split depth 2. Outcome must be Ok with the model's result or Err(OutOfMemory); after Err: full audit incl. exact reference counts with the harness's live handles, all earlier handles keep their tables, gc leaves exactly the reachable nodes; then the ballast is dropped, gc, and the same operation must succeed with the model's result. `t1x`: the whole run is issued from inside a session of another manager. Panic, abort and hang are violations. Non-trivial: runs in which the operation itself (not the operand construction) failed.",
         assumptions: vec![
             "capacities below 100 nodes disable the background collector, so which allocation fails is determined by c alone (single-threaded runs)".into(),
             "index backend only: the pointer backend has no capacity limit".into(),
